@@ -340,6 +340,7 @@ def judge_panel(ref, params, df, init, vf_list, *, tol=None, targets=None, judge
 
     # ---- C13 structure ---------------------------------------------------------
     exp_cols = ["value"] + ref.choices + ref.states + ["_period"] + list(targets or [])
+    exp_cols = list(dict.fromkeys(exp_cols))  # a variable may legally be called 'value': one column of that name
     if len(df) != T * N:
         out["C13"].append({"key": "panel_rowcount", "what": f"{len(df)} rows, expected {T}*{N}"})
         return out
